@@ -32,6 +32,9 @@ func fillRequest(req kmsg.Request, w *w1, variant int64) {
 		rt.Topic = topic
 		rp := kmsg.NewProduceRequestTopicPartition()
 		rp.Records = sent
+		if variant%5 == 4 {
+			rp.Partition = 1 + int32(variant%3) // a partition the (one-partition) topic does not have
+		}
 		rt.Partitions = append(rt.Partitions, rp)
 		r.Topics = append(r.Topics, rt)
 	case *kmsg.FetchRequest:
@@ -43,6 +46,9 @@ func fillRequest(req kmsg.Request, w *w1, variant int64) {
 		}
 		rp := kmsg.NewFetchRequestTopicPartition()
 		rp.PartitionMaxBytes, rp.CurrentLeaderEpoch = 1<<20, -1
+		if variant%5 == 3 {
+			rp.Partition = 1 + int32(variant%3)
+		}
 		rt.Partitions = append(rt.Partitions, rp)
 		r.Topics = append(r.Topics, rt)
 	case *kmsg.MetadataRequest:
@@ -59,6 +65,9 @@ func fillRequest(req kmsg.Request, w *w1, variant int64) {
 		rt.Topic = topic
 		rp := kmsg.NewListOffsetsRequestTopicPartition()
 		rp.Timestamp, rp.MaxNumOffsets = -1-variant%2, 1
+		if variant%5 == 2 {
+			rp.Partition = 1 + int32(variant%3)
+		}
 		rt.Partitions = append(rt.Partitions, rp)
 		r.Topics = append(r.Topics, rt)
 	case *kmsg.FindCoordinatorRequest:
@@ -131,6 +140,25 @@ func fillRequest(req kmsg.Request, w *w1, variant int64) {
 	}
 }
 
+// sweepNote names what is unusual about a sweep request (a partition the topic does not have).
+func sweepNote(req kmsg.Request) string {
+	switch r := req.(type) {
+	case *kmsg.ProduceRequest:
+		if len(r.Topics) > 0 && len(r.Topics[0].Partitions) > 0 && r.Topics[0].Partitions[0].Partition > 0 {
+			return fmt.Sprintf(" for partition %d of the one-partition topic %s", r.Topics[0].Partitions[0].Partition, r.Topics[0].Topic)
+		}
+	case *kmsg.FetchRequest:
+		if len(r.Topics) > 0 && len(r.Topics[0].Partitions) > 0 && r.Topics[0].Partitions[0].Partition > 0 {
+			return fmt.Sprintf(" for partition %d of a one-partition topic", r.Topics[0].Partitions[0].Partition)
+		}
+	case *kmsg.ListOffsetsRequest:
+		if len(r.Topics) > 0 && len(r.Topics[0].Partitions) > 0 && r.Topics[0].Partitions[0].Partition > 0 {
+			return fmt.Sprintf(" for partition %d of the one-partition topic %s", r.Topics[0].Partitions[0].Partition, r.Topics[0].Topic)
+		}
+	}
+	return ""
+}
+
 func (w *w1) opVersionSweep(client int, op simrt.Op) {
 	n := w.node(0)
 	av := kmsg.NewPtrApiVersionsRequest()
@@ -172,7 +200,9 @@ func (w *w1) opVersionSweep(client int, op simrt.Op) {
 			fillRequest(req, w, op.B+int64(v))
 			advertised := v >= k.MinVersion && v <= k.MaxVersion
 			w.sim.Probe("c11.pair")
+			w.sweepInFlight = fmt.Sprintf("%s v%d%s", kmsg.NameForKey(k.ApiKey), v, sweepNote(req))
 			r, ok := n.call(req, "sweep", nil) // call() fails the run on an undecodable reply or a wrong correlation id
+			w.sweepInFlight = ""
 			if w.sim.Failed() {
 				return
 			}
